@@ -9,6 +9,7 @@ fused (d).
 import FaxVerif.C08.Proofs
 import FaxVerif.C08.MdTheorems
 import FaxVerif.C08.ExtTheorems
+import FaxVerif.C08.WireNTheorems
 namespace FaxVerif.C08
 
 /-! ## (b) bound names -/
@@ -430,6 +431,43 @@ theorem proc_perm_counterexample :
       (procMd MdState.init l').toOption.map (fun s => s.types "A::m") :=
   ⟨[.methodType "A::m" "int", .methodType "A::m" "double"], [.methodType "A::m" "double", .methodType "A::m" "int"],
     List.Perm.swap _ _ _, by decide⟩
+
+/-- **C08.md_bundle_position** — what the `md-dependent` stream samples, as a theorem: ANY number of MetaData calls
+attached to a metadata-free query at ANY valid positions (chain positions, streams inside lambda bodies), in two
+different ways.  The extracted queries are the same; the two metadata lists are permutations of each other when the same
+dictionaries were attached; and whenever the two extraction orders agree registry by registry (`sameByKind` of the
+abstracted items — in particular when the extraction order is simply the same) `process_metadata` ends in the same state,
+or refuses with the same error, from every starting state.  `abs` is any abstraction of a dictionary to the registry it
+writes (the harness' `md_item`). -/
+theorem md_bundle_position (abs : Q → MdItem) (pl pl' : List (List Step × Q)) (q q1 q2 : Q)
+    (h1 : attachMany pl q = some q1) (h2 : attachMany pl' q = some q2) (hq : (strip q).2 = [])
+    (hk : sameByKind ((strip q1).2.map abs) ((strip q2).2.map abs) = true) (s : MdState) :
+    (strip q1).1 = (strip q2).1 ∧
+    ((pl.map (·.2)).Perm (pl'.map (·.2)) → (strip q1).2.Perm (strip q2).2) ∧
+    procMd s ((strip q1).2.map abs) = procMd s ((strip q2).2.map abs) := by
+  obtain ⟨a1, p1⟩ := md_many pl q q1 h1
+  obtain ⟨a2, p2⟩ := md_many pl' q q2 h2
+  rw [hq, List.append_nil] at p1 p2
+  exact ⟨a1.trans a2.symm, fun hp => p1.trans (hp.trans p2.symm), md_interleave _ _ s hk⟩
+
+/-- … and with literally the same extraction order, extraction itself cannot tell the two placements apart. -/
+theorem md_bundle_same_order (pl pl' : List (List Step × Q)) (q q1 q2 : Q)
+    (h1 : attachMany pl q = some q1) (h2 : attachMany pl' q = some q2)
+    (ho : (strip q1).2 = (strip q2).2) : strip q1 = strip q2 := by
+  obtain ⟨a1, _⟩ := md_many pl q q1 h1
+  obtain ⟨a2, _⟩ := md_many pl' q q2 h2
+  exact Prod.ext (a1.trans a2.symm) ho
+
+/-- non-vacuity: an enum at the dataset and a method type at the root, against both at the root in the other order -/
+example :
+    let q := Q.call "Select" [Q.call "EventDataset" [], .lam ["e"] (.var "e")]
+    let en := Q.node "dict" [.lit "str:'metadata_type'", .lit "str:'define_enum'"]
+    let mt := Q.node "dict" [.lit "str:'metadata_type'", .lit "str:'add_method_type_info'"]
+    let abs : Q → MdItem := fun d => if d == en then .enum "ns.E" "e" else .methodType "A::m" "t"
+    ∃ q1 q2, attachMany [([.arg 0], en), ([], mt)] q = some q1 ∧ attachMany [([], mt), ([], en)] q = some q2 ∧
+      (strip q1).2 ≠ (strip q2).2 ∧ sameByKind ((strip q1).2.map abs) ((strip q2).2.map abs) = true := by
+  refine ⟨_, _, rfl, rfl, ?_, by decide⟩
+  intro h; exact absurd ((Q.beqL_eq _ _).2 h) (by decide)
 
 /-- non-vacuity of (c): the same dictionary at the top of a two-step chain, at the dataset, and inside a lambda body -/
 example :
